@@ -308,8 +308,8 @@ def run(R, only=None):
     })
     R.coverage["trusted_base"].append("tools/translate_rules.py (regex reading of rw!(..) and of the pushdown(..) helper; its reading of names and patterns is "
                                       "compared with the compiled rule objects on every run; its reading of the side conditions is trusted)")
-    R.assumptions += ["20 plan rewrite rules (plus 7 join-type instances) have Coq obligations under the bag semantics of Model/PlanSem.v (14 + 7 proved sound for "
-                      "every binding, 6 refuted); the other plan rules (projection pushdown, join swap, hash / merge join selection, sub-query un-nesting, "
+    R.assumptions += ["21 plan rewrite rules (plus 7 join-type instances) have Coq obligations under the bag semantics of Model/PlanSem.v (15 + 7 proved sound for "
+                      "every binding, 6 refuted); the other plan rules (projection pushdown, hash-join swap, hash / merge join selection, sub-query un-nesting, "
                       "index scans, order and range rules) are not proved: they are covered by the end-to-end differential and, for buildability, by C17's theorems; "
                       "the side condition not_depend_on is read as: the columns the expression mentions are disjoint from the plan's schema; "
                       "egg's saturation and extraction are trusted to return a member of the rewrite closure", "soundness is modulo evaluation errors and ill-typed "
